@@ -257,6 +257,30 @@ def rule_stale_guard(ctx):
     update_guard(ctx, "C12")
 
 
+def rule_cancel_lock(ctx):
+    """The phase of tick that consumes the reason for a cancellation (it resets the pattern status; tick marks the state
+    Fresh after it) must get hold of the worker: a lock attempt that can time out may only be made when
+    `canceled == false`.  Otherwise the edit / restart is forgotten while the worker still runs the old pattern over the
+    old stream, and later ticks report an idle matcher over a stale snapshot (shared by C12.stream-switch and C19)."""
+    ti = get_fn(ctx.facts, "nucleo", TICK_INNER)
+    gs = GuardStates(ti)
+    bp = bool_param(ti)
+    tries = [bi for bi, t in ti.calls(lambda t: callee(t).endswith(GuardStates.TRY))]
+    if gs.failed_edges and not tries:
+        raise Inconclusive("a failed lock attempt without a try-lock call")
+    if not tries:
+        ctx.ok(site(ti, 0), "tick_inner makes no lock attempt that can time out")
+    for a_ in tries:
+        conds = [(g[3], g[2]) for g in guards_of(ti, a_)]
+        if any(is_arg(e_, bp) and vals == [0] for e_, vals in conds):
+            ctx.ok(site(ti, a_), "a lock attempt can time out only in the non-cancelling phase")
+        else:
+            ctx.violation(TICK_INNER + "|cancel-lock|1", site(ti, a_),
+                          "the cancelling phase can give up on the worker lock (timed-out try-lock reachable with canceled == true): the pattern status has been reset and tick marks the "
+                          "state Fresh anyway, so the edit / restart is forgotten; the next ticks find `was_canceled`, skip the update and report running == false over a snapshot whose "
+                          "pattern is not the matcher's and whose item count is stale")
+
+
 def rule_stream_switch(ctx):
     ti = get_fn(ctx.facts, "nucleo", TICK_INNER)
     # the cancelling phase (the one that switches the worker to a new stream; tick sets state = Fresh right after it,
